@@ -147,9 +147,16 @@ def run(ctx):
     entry_names = ("visit_item", "visit_assoc_item", "visit_stmt", "format_expr", "rewrite_match_arm", "rewrite_field",
                    "rewrite_struct_field", "format_variant", "format_foreign_item")
     n2 = 0
+    import c05
+    entries = {f.id: f.name for f in p.by_crate["rustfmt_nightly"] if f.kind != "Closure" and f.name in entry_names}
     for f in p.by_crate["rustfmt_nightly"]:
-        if f.kind == "Closure" or f.name not in entry_names:
+        if f.kind == "Closure":
             continue
+        if f.name not in entry_names:
+            # the body of an entry point under a name of its own (`visit_item_inner`): a private function reached from it alone
+            if not (f.vis != "pub" and any(g.name == CONTAINS_SKIP or g.name == VISIT_ATTRS for g in f.calls())
+                    and c05._sole_allowed_ancestor(p, f.id, entries) is not None):
+                continue
         if f.name == "rewrite_result" and "Local" not in f.id:
             continue
         for g in f.calls():
@@ -473,6 +480,22 @@ def scoping(ctx, rid):
         upd_bbs = {c.bb for c in upd}
         restores = [(bb, line) for (bb, line) in writes if bb not in upd_bbs]
         ok = bool(saves) and bool(upd) and bool(restores)
+        if not ok and not upd:
+            # the discipline lives in a scoping wrapper (`with_skip_context_of(attrs, |this| ..)`), which R04-g judges on its own
+            for c0 in vi.calls():
+                h0 = p.fns.get(c0.resolved or "")
+                if h0 is not None and h0.crate == "rustfmt_nightly" and any(x.name.endswith("SkipContext::update_with_attrs") for x in h0.calls()) \
+                        and any((x.declared or "").startswith("std::ops::FnOnce::call_once") or (x.declared or "").startswith("std::ops::FnMut::call_mut")
+                                for x in h0.calls()):
+                    vi = h0
+                    saves = [c for c in vi.calls() if c.name.endswith("SkipContext as std::clone::Clone>::clone")]
+                    upd = [c for c in vi.calls() if c.name.endswith("SkipContext::update_with_attrs")]
+                    writes = [(bb, line) for (adt, var, field, mode, bb, line) in vi.field_accesses()
+                              if field == "skip_context" and mode == "w" and adt.endswith("FmtVisitor")]
+                    upd_bbs = {c.bb for c in upd}
+                    restores = [(bb, line) for (bb, line) in writes if bb not in upd_bbs]
+                    ok = bool(saves) and bool(upd) and bool(restores)
+                    break
         if ok:
             # every path from the update to a return passes a restore block
             rb = {bb for bb, _ in restores}
@@ -580,6 +603,16 @@ def name_scopes(ctx, rid):
             if any(t in reach for t in tg) and not any(t in table_ids for t in tg):
                 sinks.append(c)
         n_sinks += len(sinks)
+        if wrappers:
+            # what runs inside the wrapper's closure (and the private function it calls) is scoped by construction; count it
+            import c05
+            fam = [g for g in p.by_crate["rustfmt_nightly"] if g.id.startswith(f.id + "::{closure")
+                   or (g.kind != "Closure" and g.vis != "pub" and g.id != f.id and c05._sole_allowed_ancestor(p, g.id, {f.id: name}) is not None)]
+            for g in fam:
+                for c in g.calls():
+                    tg = [t for (t, kind) in p.call_targets(c)] + [x for x in c.refs if x in p.fns]
+                    if any(t in reach for t in tg) and not any(t in table_ids for t in tg):
+                        n_sinks += 1
         bad = [c for c in sinks if c.bb in free and c.bb not in upd_bbs]
         r.instance(rid, "%s: names of the node's attributes scoped" % name, "ok" if not bad and (upd or wrappers) else "violation",
                    "%s:%d" % (f.file, f.line), "%d descending calls, %d updates" % (len(sinks), len(upd)))
